@@ -23,6 +23,7 @@ func c01Gen(r *Rand, tier string, emit func(op any)) {
 	genEncOps(r, n/2, false, 70, 40, 3, 8, emit) // hostile keys/strings, some failing marshalers
 	genEncOps(r, n/4, false, 20, 0, 4, 12, emit) // deep, mostly valid
 	genEncOps(r, n/4, false, 100, 150, 2, 6, emit)
+	c01GenHuge(r, tier, emit)
 }
 
 func c02Gen(r *Rand, tier string, emit func(op any)) {
@@ -50,6 +51,13 @@ func encImpl(line []byte, panicMsg string) map[string]any {
 }
 
 func c01Exec(raw json.RawMessage) Result {
+	var kind struct {
+		K string `json:"k"`
+	}
+	unmarshal(raw, &kind)
+	if kind.K == "huge" {
+		return c01ExecHuge(raw)
+	}
 	var op encOp
 	unmarshal(raw, &op)
 	line, nw, pmsg := encRun(&op)
